@@ -1,7 +1,73 @@
-(** C18 - placeholder obligations until PathsProofs lands. *)
-From Coq Require Import ZArith List.
-From V Require Import Base Perm PermProofs.
-Theorem C18_inverse_generator_undoes : forall (A : Type) (d : A) p (x : list A), Perm p -> length x = length p ->
-  apply_perm d (inverse_perm p) (apply_perm d p x) = x /\ apply_perm d p (apply_perm d (inverse_perm p) x) = x.
-Proof. exact @inverse_undoes. Qed.
-Print Assumptions C18_inverse_generator_undoes.
+(** C18 - A saved BFS result loads back equal and stays usable for path queries. Statements only: every proof is [exact] of a lemma proved elsewhere.
+    Model SaveLoad.v: the HDF5 file is an abstract map from dataset names to arrays/strings; save/load use the library's key scheme.
+    (Statements are the lemmas' closed types as printed by Coq, hence the qualified names.) *)
+From V Require Import Base SaveLoad SaveLoadProofs.
+
+(* every well-formed result (any names, central state, subset of stored layers, hashes or none, edges or none) loads back IDENTICAL *)
+Theorem C18_load_save :
+  forall r : bfs_result, length (r_hashes r) <= length (r_sizes r) -> load (save r) = Ok r.
+Proof. exact @load_save. Qed.
+Print Assumptions C18_load_save.
+
+(* and compares equal both ways *)
+Theorem C18_load_save_eq :
+  forall r : bfs_result,
+         length (r_hashes r) <= length (r_sizes r) ->
+         exists r' : bfs_result,
+           load (save r) = Ok r' /\ result_eq r' r = true /\ result_eq r r' = true.
+Proof. exact @load_save_eq. Qed.
+Print Assumptions C18_load_save_eq.
+
+(* the k.strip('layer__') trick parses the layer id back (digits are not in the stripped set) *)
+Theorem C18_strip_parse_key :
+  forall k : nat,
+         parse_nat
+           (strip
+              (String.append
+                 (String.String (Ascii.Ascii false false true true false true true false)
+                    (String.String (Ascii.Ascii true false false false false true true false)
+                       (String.String (Ascii.Ascii true false false true true true true false)
+                          (String.String (Ascii.Ascii true false true false false true true false)
+                             (String.String (Ascii.Ascii false true false false true true true false)
+                                (String.String
+                                   (Ascii.Ascii true true true true true false true false)
+                                   (String.String
+                                      (Ascii.Ascii true true true true true false true false)
+                                      String.EmptyString))))))) (nat_to_string k))) = 
+         Some k.
+Proof. exact @strip_parse_key. Qed.
+Print Assumptions C18_strip_parse_key.
+
+(* equal results agree on every field *)
+Theorem C18_result_eq_sound :
+  forall a b : bfs_result,
+         result_eq a b = true ->
+         r_completed a = r_completed b /\
+         r_sizes a = r_sizes b /\
+         r_hashes a = r_hashes b /\
+         r_edges a = r_edges b /\
+         r_gens a = r_gens b /\
+         r_gen_names a = r_gen_names b /\
+         r_central a = r_central b /\
+         r_name a = r_name b /\
+         (forall (k : nat) (l : list (list BinNums.Z)),
+          List.In (k, l) (r_layers a) ->
+          exists l' : list (list BinNums.Z), List.In (k, l') (r_layers b) /\ l' = l) /\
+         (forall (k : nat) (l : list (list BinNums.Z)),
+          List.In (k, l) (r_layers b) ->
+          exists l' : list (list BinNums.Z), List.In (k, l') (r_layers a)).
+Proof. exact @result_eq_sound. Qed.
+Print Assumptions C18_result_eq_sound.
+
+(* results differing in any scalar/list field compare unequal *)
+Theorem C18_result_eq_distinguishes :
+  forall a b : bfs_result,
+         r_completed a <> r_completed b \/
+         r_sizes a <> r_sizes b \/
+         r_hashes a <> r_hashes b \/
+         r_edges a <> r_edges b \/
+         r_gens a <> r_gens b \/
+         r_gen_names a <> r_gen_names b \/ r_central a <> r_central b \/ r_name a <> r_name b ->
+         result_eq a b = false.
+Proof. exact @result_eq_distinguishes. Qed.
+Print Assumptions C18_result_eq_distinguishes.
